@@ -15,7 +15,7 @@ from harness.common import MachineryError, VERIF, PY
 FORMULAS = {
     "C09": {"ExactlyOnce", "NoRunWhileStopped", "Fifo1", "FutureFaithful", "NotStranded"},
     "C10": {"MaxRunning", "MaxServing", "MinServing", "NotStranded", "CtorContract"},
-    "C11": {"JoinSound", "WorkersDieAfterStop", "AllDeadAfterStop", "NoDeadlock"},
+    "C11": {"JoinSound", "WorkersDieAfterStop", "AllDeadAfterStop", "NoDeadlock", "NotStranded"},
 }
 # which algorithm variant /repo is expected to contain (see ThreadPool.tla header)
 FIX = {"FixJoin": "TRUE", "FixGrow": "TRUE"}
@@ -236,6 +236,25 @@ def run(ctx):
             json.dump(part, open(files[-1], "w"))
     results = judge(ctx, files)
     split["judge"] = round(time.time() - t1, 1)
+    # ---- model-guided search (DESIGN 4.6): executions that stopped conforming to the model are re-run and extended
+    # with further random operations; the extensions are judged like every other trace
+    drifting = [r["trace"] for r in results if r["matched"] != r["total"] and r["trace"]["kind"] == "random"]
+    if drifting:
+        t1 = time.time()
+        jobs = []
+        for tr in drifting[:16]:
+            for x in range(48 if quick else 128):
+                jobs.append([tr["seed"]] + tr["params"] + [6, x + 1])
+        cmds, files2 = [], []
+        for j, chunk in enumerate(common.chunks(jobs, (len(jobs) + 15) // 16)):
+            jf, of = ctx.path("ext%d.in.json" % j), ctx.path("ext%d.json" % j)
+            json.dump(chunk, open(jf, "w"))
+            cmds.append(([PY, REC, "extend", jf, of], pyenv()))
+            files2.append(of)
+        run_parallel(cmds, 1500)
+        results += judge(ctx, files2)
+        split["focused"] = round(time.time() - t1, 1)
+        ctx.cov["focused_search"] = {"drifting_traces": len(drifting), "extensions": len(jobs)}
     # ---- verdicts
     conform = {"replayed_behaviours": 0, "replay_conformant": 0, "recorded_traces": 0, "stageA_accepted": 0}
     accepted = 0
@@ -271,14 +290,21 @@ def run(ctx):
             sig = "%s%s" % (name, (":" + qualifier(name, tr, l)) if qualifier(name, tr, l) else "")
             replay = {"kind": tr["kind"], "trace_seed": tr.get("seed"), "cfg": tr["cfg"], "formula": name, "at_event": l,
                       "summary": summarise(tr, l + 3)}
-            if tr["kind"] == "random":
-                replay["params"] = {"maxmax": max(2, tr["cfg"]["maxT"]), "nt": tr["cfg"]["nt"], "nc": tr["cfg"]["nc"]}
+            if tr["kind"] in ("random", "extended"):
+                replay["ext"] = tr.get("ext", [0, 0])
+                replay["params"] = {"maxmax": tr["params"][0], "nt": tr["params"][1], "nc": tr["params"][2]}
             ctx.violation(sig, "%s is false at event %d of a recorded execution of the real pool (%s)" % (name, l, tr["kind"]), replay)
         if len(ctx.cov["samples"]) < 3 and nontrivial:
             ctx.sample(summarise(tr, 60))
     ctx.cov["traces_validated_against_impl"] = accepted
     ctx.cov["conformance"] = conform
     ctor_contract(ctx)
+    if ctx.prop == "C09":
+        # "its FutureResult then reports done and yields the very object / raises the very exception": judged at the
+        # granularity of single field operations by the Future machinery (shared with C16)
+        from checks import c16_future
+        c16_future.record_and_judge(ctx, {"ResultFaithful", "NotDoneBeforeFinish", "ResultOnlyAfterFinish", "ConsistentAfter"},
+                                    quick, with_replay=True)
     split["total"] = round(time.time() - t0, 1)
     ctx.cov["wall_split"] = split
     print("wall split:", split)
@@ -307,12 +333,13 @@ def ctor_contract(ctx):
 
 def replay(ctx, path):
     rp = json.load(open(path))
-    if rp.get("kind") == "random":
+    if rp.get("kind") in ("random", "extended"):
         p = rp["params"]
+        ext = rp.get("ext", [0, 0])
         of = ctx.path("r.json")
         # regenerate exactly that execution: pool_rec seeds are seed*100003+i ; run a single trace with the stored seed
         code = ("import json,sys; sys.argv=['x']; from harness import pool_rec; "
-                "t=pool_rec.random_trace(%d,%d,%d,%d); json.dump([t],open(%r,'w'))" % (rp["trace_seed"], p["maxmax"], p["nt"], p["nc"], of))
+                "t=pool_rec.random_trace(%d,%d,%d,%d,True,%d,%d); json.dump([t],open(%r,'w'))" % (rp["trace_seed"], p["maxmax"], p["nt"], p["nc"], ext[0], ext[1], of))
         subprocess.check_call([PY, "-c", code], env=dict(os.environ, **pyenv()), cwd=VERIF)
         results = judge(ctx, [of])
         for r in results:
